@@ -162,7 +162,9 @@ BomLayouts(f, tid, body) ==
   LET src == Module(body)  k == NSlots(src)
       fix(P) == [P EXCEPT ![1] = 0]
       V(P, Q, e, feat) == [Vec(f, tid, src, LayoutFrom(<<BOM>>, fix(P), Q, src, e), feat, e) EXCEPT !.layoutFree = FALSE]
-  IN {V([b \in 1..k |-> t], Zero(k), 0, Feat("bom", 0, t)) : t \in {0, 3, 6, 1}}
+      \* trivia t at every optional boundary, a blank (t = 3: a line feed) between keyword and argument
+      uni(t) == [b \in 1..k |-> IF b % Slots = 2 THEN (IF t = 3 THEN 2 ELSE 0) ELSE t]
+  IN {V(uni(t), Zero(k), 0, Feat("bom", 0, t)) : t \in {0, 3, 6, 1}}
      \cup {LET e == RandomElement(0..(Len(TrivEnd) - 1)) IN
            V([b \in 1..k |-> RandomElement(0..(MaxMenu - 1))], [b \in 1..k |-> RandomElement(0..5)], e, Feat("bom-random", 0, j)) : j \in 1..(IF Thorough THEN NLay ELSE 2)}
 \* big blocks are rendered directly (the general layout machinery is too slow for hundreds of statements): ASCII, unquoted
